@@ -38,12 +38,13 @@ func evExtToQKAlt(t *Tracer, ids []BID, hz, az, E, O int64) {
 			return transform.ConvertZToMinMaxAltitudekey(b.F, b.V, az, E, O)
 		})
 	}
+	real = spare(real)
 	snap := append([]string(nil), real...)
 	o, res := guard(func() (any, error) {
 		return transform.ConvertExtendedSpatialIDsToQuadkeysAndAltitudekeys(real, hz, az, E, O)
 	})
 	e := absW.ev("ExtToQKAlt", map[string]any{"ids": bidsArr(ids), "hz": hz, "az": az, "E": E, "O": O,
-		"per": per, "kept": sameStrings(real, snap)})
+		"per": per, "kept": intact(real, snap)})
 	e.O, e.Real = o, map[string]any{"ids": snap}
 	e.R = []any{}
 	if o == "panic" {
